@@ -61,6 +61,7 @@ type SpecFunc struct {
 	Params []string
 	Body   ast.Expr
 	Text   string
+	Opaque bool // relational mode may treat it as an uninterpreted function of its slice argument
 }
 
 type Lemma struct {
@@ -291,7 +292,12 @@ func (cs *ContractSet) loadFile(path, repoDir string) error {
 			cur.Results = fieldsComma(m[3])
 			cs.ByKey[pkgPath+"|"+m[1]] = cur
 		case "spec":
-			// spec name(a, b) = expr
+			// spec [opaque] name(a, b) = expr
+			opaque := false
+			if strings.HasPrefix(rest, "opaque ") {
+				opaque = true
+				rest = strings.TrimSpace(strings.TrimPrefix(rest, "opaque "))
+			}
 			m := regexp.MustCompile(`^([A-Za-z_][A-Za-z0-9_]*)\s*\(([^)]*)\)\s*=\s*(.*)$`).FindStringSubmatch(rest)
 			if m == nil {
 				return fmt.Errorf("%s:%d: bad spec %q", path, lineNo, body)
@@ -300,7 +306,7 @@ func (cs *ContractSet) loadFile(path, repoDir string) error {
 			if err != nil {
 				return fmt.Errorf("%s:%d: spec %s: %v", path, lineNo, m[1], err)
 			}
-			cs.Specs[m[1]] = &SpecFunc{Name: m[1], Params: fieldsComma(m[2]), Body: ex, Text: m[3]}
+			cs.Specs[m[1]] = &SpecFunc{Name: m[1], Params: fieldsComma(m[2]), Body: ex, Text: m[3], Opaque: opaque}
 		case "lemma":
 			cur = nil
 			curLemma = &Lemma{Name: rest, Pkg: pkgPath, File: path, Line: lineNo}
